@@ -92,6 +92,7 @@ fn cov_spec(cov: &mut Cov, spec: &XzSpec, file_len: usize) {
     cov.inc("index_padding", ((4 - n % 4) % 4) as u32);
     cov.max("file_len", file_len as u64);
     cov.max("block_count", spec.blocks.len() as u64);
+    cov.inc("vli_len.record_count", vli_len(spec.index_count) as u32);
 }
 
 fn fam_random(ctx: &CaseCtx, cov: &mut Cov) -> CaseOut {
@@ -128,7 +129,8 @@ fn fam_readers(ctx: &CaseCtx, cov: &mut Cov) -> CaseOut {
 fn fam_many_blocks(ctx: &CaseCtx, cov: &mut Cov) -> CaseOut {
     let mut out = CaseOut::default();
     let mut rng = ctx.rng();
-    let nb = rng.range(9, ctx.tier.pick(40, 300)) as usize;
+    // record counts of 128 and more need a two-byte integer in the index
+    let nb = if ctx.index % 4 == 0 { rng.range(126, 140) as usize } else { rng.range(9, ctx.tier.pick(60, 300)) as usize };
     let check = *rng.pick(&[0u8, 1, 4]);
     let mut blocks = Vec::new();
     for _ in 0..nb {
@@ -263,6 +265,9 @@ fn floors(tier: Tier, cov: &Cov) -> Vec<String> {
     let want_vli = tier.pick(4, 4);
     if cov.group_nonzero("vli_len.uncompressed") < want_vli {
         m.push(format!("only {} integer lengths for uncompressed size", cov.group_nonzero("vli_len.uncompressed")));
+    }
+    if cov.get("vli_len.record_count", 2) == 0 {
+        m.push("no file with 128 or more blocks (two-byte record count)".into());
     }
     if cov.maxes.get("header_len").copied().unwrap_or(0) < 1024 {
         m.push("no 1024-byte block header".into());
